@@ -90,7 +90,7 @@ PROPS = {
                    reach={"VH_C05_Literal": ["tokens", "error"], "VH_C05_Possessive": ["tolerated", "tokens"], "VH_C05_PushPop": ["tokens"], "VH_C05_G0": ["error"]})],
         bounds=dict(quick="40 catalogue definitions of the generator's supported class (one per regexp operator the generator handles + multi-state Push/Pop/Return/Include + Pop/Return in Root + elided rules with actions + nullable repetition bodies + rule names starting with non-ASCII letters + literal U+FFFD + caseless rule names + (?i) literals with punctuation) and 24 generated definitions (deterministic generator restricted to the supported class) x all inputs of <= 3 arbitrary bytes",
                     thorough="same catalogue + 120 generated definitions x all inputs of <= 4 arbitrary bytes"),
-        outside="definitions outside the catalogue and the generated family; inputs longer than the bound; back-reference / non-greedy / empty-matching rules (documented as unsupported by the generator)",
+        outside="definitions outside the catalogue and the generated family; inputs longer than the bound; back-reference / non-greedy / empty-matching rules (documented as unsupported by the generator); case-insensitive literals containing U+FFFD on invalid input bytes (known open difference, DESIGN 10.4 round 7, not in the catalogue)",
         assumptions=["package regexp replaced by reference matchers on symbolic input; the tolerated-difference predicate is 'possessive and backtracking reference matchers disagree on the span of some rule the runtime lexer tried on this input'"],
         explanation="The SSA executed for the generated side is the SSA of the code the real generator emitted from the current tree.",
     ),
